@@ -443,6 +443,12 @@ func (m *MemoryBackend) Terminate(client *Client) error {
 	m.globalMutex.Lock()
 	defer m.globalMutex.Unlock()
 
+	// ignore clients that have no session as their setup failed, they hold no
+	// resources and the saved client belongs to another connection
+	if client.Session() == nil {
+		return nil
+	}
+
 	// get session
 	sess := client.Session().(*memorySession)
 
